@@ -339,8 +339,9 @@ def parentRun (c : Cfg) (rs : List SResp) : POut :=
      (acquireAll (stagesOf c) { owned := cfgFiles c } rs).rest⟩
   | none => afterFork c (acquireAll (stagesOf c) { owned := cfgFiles c } rs).s (acquireAll (stagesOf c) { owned := cfgFiles c } rs).rest
 
-/-- dropping the `Popen` of a successful launch -/
+/-- dropping the `Popen` of a successful launch: `Popen::drop` releases its pipe ends first, then
+    waits (unless detached) -/
 def dropOk (c : Cfg) (p : Pipes) : List SCall :=
-  (if c.detached then [] else [.waitpid]) ++ closeAll (parentEnds c p)
+  closeAll (parentEnds c p) ++ (if c.detached then [] else [.waitpid])
 
 end Spawn
